@@ -25,13 +25,15 @@ def base_model():
                                    mkfield('root', R(None, 'Root')), mkfield('nroot', N(R(None, 'Root'))),
                                    mkfield('uu', R(None, 'Uu')), mkfield('cu', R(None, 'Cu')), mkfield('child', N(R(None, 'Child'))),
                                    mkfield('ai', N(R(None, 'Ai'))),
-                                   mkfield('oc', N(R(None, 'OuChild'))), mkfield('og', N(L(R(None, 'OuGrand'), None, None)))]),
+                                   mkfield('oc', N(R(None, 'OuChild'))), mkfield('og', N(L(R(None, 'OuGrand'), None, None))),
+                                   mkfield('oco', N(R(None, 'CuOpen')))]),
         mkunion('Ou', tags=[mktag('v'), mktag('w'), mktag('t', I32), mktag('s', R(None, 'Inner')), mktag('ns', N(R(None, 'Inner'))),
                             mktag('r', R(None, 'Root'))]),
         mkunion('OuChild', parent=R(None, 'Ou'), tags=[mktag('cx'), mktag('cy', I32)]),
         mkunion('OuGrand', parent=R(None, 'OuChild'), tags=[mktag('gx')]),
         mkunion('Uu', tags=[mktag('x'), mktag('o', R(None, 'Ou')), mktag('no', N(R(None, 'Ou'))), mktag('lo', L(R(None, 'Ou'), None, None))]),
         mkunion('Cu', closed=True, tags=[mktag('c1'), mktag('c2', R(None, 'Inner'))]),
+        mkunion('CuOpen', parent=R(None, 'Cu'), tags=[mktag('co1'), mktag('co2', I32)]),     # an open union that extends a closed one
         mkroute('rr', 1, R(None, 'Inner'), R(None, 'Ou'), VOID),
     )
     return Model((Namespace(NS, (File(None, (), defs),)),))
